@@ -63,10 +63,10 @@ type World struct {
 // NewWorld builds servers and a device for a key kind / encoding (no protocol has run yet).
 func NewWorld(k keys.Kind, enc protocol.KeyEncoding) *World {
 	w := &World{Kind: k, Enc: enc}
-	w.Mfg = NewMemServer("mfg", "mfg")
-	w.RV = NewMemServer("rv", "owner3") // the RV server's own keys are irrelevant
-	w.Owner = NewMemServer("owner", "owner1")
-	w.Owner2 = NewMemServer("owner2", "owner2")
+	w.Mfg = NewMemServer("mfg", "mfg").UseKind(k)
+	w.RV = NewMemServer("rv", "owner3").UseKind(k) // the RV server's own keys are irrelevant
+	w.Owner = NewMemServer("owner", "owner1").UseKind(k)
+	w.Owner2 = NewMemServer("owner2", "owner2").UseKind(k)
 	w.Dev = NewDevice(k, enc, "device")
 	w.WMfg, w.WRV, w.WOwner = NewWire(w.Mfg), NewWire(w.RV), NewWire(w.Owner)
 	return w
